@@ -530,6 +530,8 @@ impl<'de, R: Read<'de>> Parser<R> {
                 let next = self.peek_or_null()?;
                 if next == 0 || is_delimiter(next) || is_sign_subsequent(next) {
                     Token::Symbol(self.parse_symbol_suffix("-")?.into())
+                } else if next == b'.' {
+                    Token::Symbol(self.parse_sign_dot_symbol("-.")?.into())
                 } else {
                     Token::Number(self.parse_num_literal(10, false)?)
                 }
@@ -539,6 +541,8 @@ impl<'de, R: Read<'de>> Parser<R> {
                 let next = self.peek_or_null()?;
                 if next == 0 || is_delimiter(next) || is_sign_subsequent(next) {
                     Token::Symbol(self.parse_symbol_suffix("+")?.into())
+                } else if next == b'.' {
+                    Token::Symbol(self.parse_sign_dot_symbol("+.")?.into())
                 } else {
                     Token::Number(self.parse_num_literal(10, true)?)
                 }
@@ -825,6 +829,18 @@ impl<'de, R: Read<'de>> Parser<R> {
         match self.read.parse_symbol(&mut self.scratch)? {
             Reference::Borrowed(s) => Ok(s.into()),
             Reference::Copied(s) => Ok(s.into()),
+        }
+    }
+
+    // Parses the R7RS peculiar identifier `<sign> . <dot subsequent> <subsequent>*`; the sign
+    // has been consumed, the dot has been peeked.
+    fn parse_sign_dot_symbol(&mut self, prefix: &str) -> Result<String> {
+        self.eat_char();
+        let next = self.peek_or_null()?;
+        if next == b'.' || is_sign_subsequent(next) {
+            self.parse_symbol_suffix(prefix)
+        } else {
+            Err(self.peek_error(ErrorCode::InvalidNumber))
         }
     }
 
